@@ -192,9 +192,13 @@ class Ctx(Part):
             res = module.CASES[v["case"]](copy.deepcopy(v["params"]))
             sigs = [s for s, _ in res]
             if sig not in sigs:
-                raise HarnessError(
-                    "nondeterministic harness: violation %s did not reproduce on replay "
-                    "(got %r)" % (sig, sigs))
+                # Observed during the exploration but not when the same case is re-run alone:
+                # the outcome depends on what the process evaluated before, i.e. on hidden
+                # state (in the library, e.g. a module-level cache -- or in the harness).  It is
+                # reported, flagged as history-dependent; it can only happen if something was
+                # observed to go wrong in the first place.
+                vs[0]["what"] += ("  [HISTORY-DEPENDENT: did not reproduce when replayed alone "
+                                  "(got %r); hidden state between calls]" % (sigs,))
             confirmed.append((sig, vs))
         os.makedirs(os.path.join(REPLAY_DIR, self.pid), exist_ok=True)
         lines = []
